@@ -34,7 +34,8 @@ COMPONENTS = {
 WARMUP = 12
 QUICK = {'budget_s': 40}
 THOROUGH = {'budget_s': 480}
-EXPECTED_PROBES = ['notify_inside_snapshot_window', 'two_watchers_one_notify', 'watcher_woken']
+EXPECTED_PROBES = ['notify_inside_snapshot_window', 'two_watchers_one_notify', 'watcher_woken',
+                   'checked_while_watcher_waits', 'whole_run_watcher_saw_completed']
 
 _mods = {}
 
@@ -43,18 +44,103 @@ def setup():
   env.import_openhtf()
   from workloads import wsub
   _mods['wsub'] = wsub
-  try:
-    from workloads import wexec_watch
-    _mods['wexec_watch'] = wexec_watch
-  except ImportError:
-    pass
+  from wx import common
+  common.setup()
+  from workloads import wexec_watch
+  _mods['wexec_watch'] = wexec_watch
 
 
 def run_one(tape):
   mode = tape.weighted([(6, 'micro'), (3, 'exec')], 'mode')
-  if mode == 'exec' and 'wexec_watch' in _mods:
-    return _mods['wexec_watch'].run_one_c18(tape)
+  if mode == 'exec':
+    return run_exec(tape)
   return run_micro(tape)
+
+
+# ------------------------------------------------------------ whole-run mode
+def _extract(pair):
+  """What a station server would serialise from the snapshot, taken at once (untraced = atomic)."""
+  snap, ev = pair
+  ps = snap.get('running_phase_state')
+  meas = {}
+  if ps:
+    for n, m in ps['measurements'].items():
+      if 'measured_value' in m:
+        meas[n] = m['measured_value']
+  view = {'status': snap['status'], 'phase': ps['name'] if ps else None, 'meas': meas,
+          'logs': set(l['message'] for l in snap['test_record']['log_records']),
+          'n_phases': len(snap['test_record']['phases'])}
+  return view, ev
+
+
+def run_exec(tape):
+  """Watcher threads attached to a whole Test.execute(): no watcher that believes it is up to date
+  (event not set) may hold a snapshot that lacks a completed change; every watcher sees COMPLETED."""
+  import threading as _threading
+  from wx import gen as gen_mod
+  from wx import run as run_mod
+  ww = _mods['wexec_watch']
+  strict = tape.chance(700, 'strict')
+  if strict:
+    prof = gen_mod.profile(max_nodes=6, max_depth=2, p_meas=700, p_logs=600, p_attach=100, p_diag=150, p_dur=200,
+                           p_fault_beh=200, p_plug=150, p_test_start=150)
+  else:
+    prof = gen_mod.profile(max_nodes=6, max_depth=2, p_meas=400, p_logs=400, p_dur=200, p_fault_beh=250, p_plug=200,
+                           p_timeout=150, abort=500, abort2=200, p_test_start=200, plug_faults=150)
+  spec = gen_mod.Gen(tape, prof).program()
+  n_w = 1 + tape.draw(2, 'n_watchers')
+  reg = {}
+  viols = []
+  probes = {}
+  holder = {}
+
+  def on_update(kind, phase, name, val):
+    for wid in sorted(reg):
+      view, ev = reg[wid]
+      if ev.is_set():
+        continue
+      probes['checked_while_watcher_waits'] = 1
+      bad = None
+      if kind == 'phase' and view['phase'] != phase:
+        bad = {'clause': 'running_phase_change_not_notified', 'details': {'watcher_sees': view['phase']}}
+      elif kind == 'meas' and (view['phase'] != phase or view['meas'].get(name, '<unset>') != val):
+        bad = {'clause': 'measurement_change_not_notified', 'details': {
+            'watcher_sees': repr(view['meas'].get(name, '<unset>')), 'n_set_in_snapshot': len(view['meas'])}}
+      elif kind == 'log' and name not in view['logs']:
+        bad = {'clause': 'log_record_not_notified', 'details': {}}
+      if bad is not None and not viols:
+        viols.append(bad)
+
+  def extra(sim, ctx, test, threads):
+    holder['sim'] = sim
+    if strict:
+      ctx.on_update = on_update
+    wout = ctx.wout
+    for w in range(n_w):
+      th = _threading.Thread(target=ww.cwatcher, args=(ctx, test, w, reg, wout, _extract), name='cwatcher%d' % w)
+      th.daemon = True
+      th.start()
+      threads.append(('w', th))
+
+  obs = run_mod.run_spec(tape, spec, extra_threads=extra, style=tape.draw(4, 'style'))
+  sim = obs.sim
+  if obs.failed in ('deadlock', 'hang'):
+    info = obs.failed_info or ''
+    if 'cwatcher' in info or 'watcher' in info:
+      viols.append({'clause': 'watcher_blocked_forever_on_whole_run', 'details': {'blocked': info[:200]}})
+  elif obs.failed is None:
+    done = set(e[4] for e in obs.log if e[3] == 'cwatch_done')
+    nostate = set(e[4] for e in obs.log if e[3] == 'cwatch_no_state')
+    for w in range(n_w):
+      if w not in done and w not in nostate:
+        viols.append({'clause': 'watcher_did_not_observe_completed', 'details': {'watcher': w}})
+        break
+    if done:
+      probes['whole_run_watcher_saw_completed'] = 1
+  res = run_mod.result_from(obs, viols[:1], probes, True, {'mode': 'exec', 'strict': strict, 'watchers': n_w})
+  if obs.failed in ('deadlock', 'hang') and not viols and not res.get('abnormal'):
+    res['probes']['other_deadlock_left_to_C04'] = 1
+  return res
 
 
 def run_micro(tape):
